@@ -159,6 +159,10 @@ def run(spec):
         inits.append(has_init)
     outside = base / 'outside'
     outside.mkdir(exist_ok=True)
+    # a sibling directory whose name merely starts with the project's name
+    sibling = base / (proj.name + '_old') / 'scripts'
+    sibling.mkdir(parents=True, exist_ok=True)
+    (sibling.parent / 'sibling_helper.py').write_text('def from_sibling(): pass\n')
 
     sys_path_opts = [
         ('none', None),
@@ -174,7 +178,8 @@ def run(spec):
                   ('outside', [str(outside)])]
     proj_opts = [('str', str(proj)), ('path', proj), ('rel', None)]
     env_opts = [('none', None), ('str', '/venv/bin/python'), ('path', pathlib.Path('/venv/bin/python'))]
-    loc_opts = [('nopath', None), ('outside', outside / 'buf.py'), ('depth0', proj / 'buf.py')] + \
+    loc_opts = [('nopath', None), ('outside', outside / 'buf.py'),
+                ('outside_name_prefix', sibling / 'buf.py'), ('depth0', proj / 'buf.py')] + \
         [('depth%d' % (i + 1), c / 'buf.py') for i, c in enumerate(chain)]
     combos = list(itertools.product(sys_path_opts, added_opts, (True, False), proj_opts, env_opts,
                                     (False, True), loc_opts))
